@@ -3,6 +3,7 @@ from __future__ import annotations
 
 import ast
 import copy
+import json
 
 from .. import driver
 from ..core import Ctx, coq_eval_shards, g_Z, g_list, g_nat, g_opt, g_pair, pmap, proof_step
@@ -44,6 +45,7 @@ def run_heap_case(c):
         cells.append([x[1] if x[0] == "int" else cells[x[1]] for x in cell])
     obj = lambda x: x[1] if x[0] == "int" else cells[x[1]]  # noqa
     v = obj(c["v"])
+    at_comparison = json.loads(json.dumps(v))      # independent plain copy of the value at comparison time
     rec = clone(v)
     for m in c["muts"]:
         cell = cells[m[1]]
@@ -57,7 +59,7 @@ def run_heap_case(c):
                 cell[m[2]] = obj(m[3])
         else:
             cell.clear()
-    return {"copy": rec, "orig": v}
+    return {"copy": rec, "orig": v, "at_comparison": at_comparison}
 
 
 def g_hval(x):
@@ -84,17 +86,152 @@ def corr_heap(ctx: Ctx):
     n = 800 if not ctx.thorough else 8000
     cases = [gen_heap_case(ctx.rng) for _ in range(n)]
     terms = []
+    outs = []
     for c in cases:
         o = run_heap_case(c)
+        outs.append(o)
         ctx.count(("heap", repr(c)), len(c["muts"]) >= 1 and len(c["heap"]) >= 2)
         terms.append(g_pair(g_list(c["heap"], lambda cell: g_list(cell, g_hval)), g_hval(c["v"]), g_list(c["muts"], g_mut),
                             g_opt(o["copy"], g_pure), g_opt(o["orig"], g_pure)))
     bad = coq_eval_shards(ctx, "heap", "Model.Heap Corr.HeapCorr", "case", terms, "mismatches")
     ctx.coverage["traces_validated_against_impl"] += len(terms)
     ctx.coverage["correspondence"]["clone_vs_heap_model"] = {"cases": len(terms), "mismatches": len(bad)}
+    for c, o in zip(cases, outs):
+        if o["copy"] != o["at_comparison"]:      # the property itself, judged without the model
+            ctx.report(f"clone(): the recorded copy reads {o['copy']} after the mutations but the value at comparison time was {o['at_comparison']}",
+                       {"kind": "heap", "case": c})
     for j in bad[:10]:
         ctx.report(f"Model/Heap.v and clone() differ on {cases[j]}", {"kind": "heap", "case": cases[j]}, no_input=True, kind="correspondence")
     ctx.sample({"heap_case": cases[0]})
+
+
+# ----------------------------------------------------------------------------- A2: recorder traces vs Model/Heap.v rrun
+def count_lists(p):
+    return 1 + sum(count_lists(x) for x in p) if isinstance(p, list) else 0
+
+
+def gen_trace(rng):
+    """initial heap + events; the test's objects stay acyclic (a cell refers to older cells only); the addresses of the
+    cells that the model allocates for the copies are tracked so that later allocations get the model's addresses"""
+    n0 = rng.randint(1, 4)
+    heap = []
+    for a in range(n0):
+        heap.append([("ref", rng.randrange(a)) if a > 0 and rng.random() < 0.45 else ("int", rng.randint(0, 9)) for _ in range(rng.randint(0, 3))])
+    # shadow execution on plain Python lists to know sizes
+    objs = {}
+    for a, cell in enumerate(heap):
+        objs[a] = [x[1] if x[0] == "int" else objs[x[1]] for x in cell]
+    n = n0
+    test_addrs = list(range(n0))
+    evs = []
+    for _ in range(rng.randint(1, 8)):
+        k = rng.random()
+        if k < 0.35:
+            a = rng.choice(test_addrs)
+            evs.append(("observe", ("ref", a)) if rng.random() < 0.9 else ("observe", ("int", rng.randint(0, 9))))
+            if evs[-1][1][0] == "ref":
+                n += count_lists(copy.deepcopy(objs[a]))
+        elif k < 0.85:
+            a = rng.choice(test_addrs)
+            older = [b for b in test_addrs if b < a]
+            val = ("ref", rng.choice(older)) if older and rng.random() < 0.35 else ("int", rng.randint(10, 19))
+            kk = rng.random()
+            if kk < 0.4:
+                m = ("append", a, val)
+                objs[a].append(val[1] if val[0] == "int" else objs[val[1]])
+            elif kk < 0.6:
+                m = ("pop", a)
+                if objs[a]:
+                    objs[a].pop()
+            elif kk < 0.85:
+                i = rng.randint(0, 3)
+                m = ("set", a, i, val)
+                if i < len(objs[a]):
+                    objs[a][i] = val[1] if val[0] == "int" else objs[val[1]]
+            else:
+                m = ("clear", a)
+                objs[a].clear()
+            evs.append(("mutate", m))
+        else:
+            cell = [("ref", rng.choice(test_addrs)) if rng.random() < 0.5 else ("int", rng.randint(20, 29)) for _ in range(rng.randint(0, 3))]
+            evs.append(("alloc", cell))
+            objs[n] = [x[1] if x[0] == "int" else objs[x[1]] for x in cell]
+            test_addrs.append(n)
+            n += 1
+    return {"heap": heap, "evs": evs}
+
+
+def run_trace(c):
+    """the real thing: Python lists, generic_value.clone for every observation"""
+    from inline_snapshot._snapshot.generic_value import clone
+    objs = {}
+    for a, cell in enumerate(c["heap"]):
+        objs[a] = [x[1] if x[0] == "int" else objs[x[1]] for x in cell]
+    n = len(c["heap"])
+    obj = lambda x: x[1] if x[0] == "int" else objs[x[1]]  # noqa
+    recs = []
+    at = []
+    for e in c["evs"]:
+        if e[0] == "observe":
+            v = obj(e[1])
+            at.append(json.loads(json.dumps(v)))
+            r = clone(v)
+            recs.append(r)
+            n += count_lists(r)
+        elif e[0] == "mutate":
+            m = e[1]
+            cell = objs[m[1]]
+            if m[0] == "append":
+                cell.append(obj(m[2]))
+            elif m[0] == "pop":
+                if cell:
+                    cell.pop()
+            elif m[0] == "set":
+                if m[2] < len(cell):
+                    cell[m[2]] = obj(m[3])
+            else:
+                cell.clear()
+        else:
+            objs[n] = [obj(x) for x in e[1]]
+            n += 1
+    return {"recs": recs, "cells": [objs[a] for a in sorted(objs)], "at_comparison": at}
+
+
+def g_ev(e):
+    if e[0] == "observe":
+        return f"(EObserve {g_hval(e[1])})"
+    if e[0] == "mutate":
+        return f"(EMutate {g_mut(e[1])})"
+    return "(EAlloc " + g_list(e[1], g_hval) + ")"
+
+
+def corr_recorder(ctx: Ctx):
+    n = 600 if not ctx.thorough else 6000
+    cases = [gen_trace(ctx.rng) for _ in range(n)]
+    terms = []
+    for c in cases:
+        o = run_trace(c)
+        nobs = sum(1 for e in c["evs"] if e[0] == "observe")
+        nmut_after = 0
+        seen = False
+        for e in c["evs"]:
+            seen = seen or e[0] == "observe"
+            nmut_after += seen and e[0] == "mutate"
+        ctx.count(("trace", repr(c)), nobs >= 1 and nmut_after >= 1)
+        ctx.dist(f"A2.observations={min(nobs, 3)}")
+        ctx.dist(f"A2.mutations_after_first_observation={min(nmut_after, 3)}")
+        terms.append(g_pair(g_list(c["heap"], lambda cell: g_list(cell, g_hval)), g_list(c["evs"], g_ev),
+                            g_list(o["recs"], lambda p: g_opt(p, g_pure)), g_list(o["cells"], lambda p: g_opt(p, g_pure))))
+    bad = coq_eval_shards(ctx, "recorder", "Model.Heap Corr.HeapCorr", "rcase", terms, "rmismatches")
+    ctx.coverage["traces_validated_against_impl"] += len(terms)
+    ctx.coverage["correspondence"]["recorder_traces_vs_heap_model"] = {"cases": len(terms), "mismatches": len(bad)}
+    for c in cases:
+        o = run_trace(c)
+        if o["recs"] != o["at_comparison"]:
+            ctx.report(f"clone(): recorded copies read {o['recs']} at the end but the values at comparison time were {o['at_comparison']}", {"kind": "trace", "case": c})
+    for j in bad[:10]:
+        ctx.report(f"Model/Heap.v (rrun) and clone() on real objects differ on {cases[j]}", {"kind": "trace", "case": cases[j]}, no_input=True, kind="correspondence")
+    ctx.sample({"recorder_trace": cases[0]})
 
 
 # ----------------------------------------------------------------------------- B: mutation schedules end to end
@@ -217,11 +354,13 @@ def test_a():
 '''
 
 
-def bad_copy(ctx: Ctx):
+def bad_copy(ctx: Ctx, only=None):
     for expr in ("assert Bad(1) == snapshot()", "assert Bad(1) <= snapshot()", "assert Bad(1) >= snapshot()", "assert Bad(1) in snapshot()", "assert [Bad(1)] == snapshot()",
                  "assert Bad(1) == snapshot()['k']", "assert Bad(1) == snapshot(Bad(1))", "assert Bad(1) in snapshot([Bad(1)])"):
         src = BADCOPY % expr
         for flags in ((), ("create", "fix")):
+            if only and only != (expr, flags):
+                continue
             r = driver.run_inproc({"test_a.py": src}, flags, block_black=True)
             ctx.count(("badcopy", expr, flags), True)
             R = r["R"].get("test_a.py")
@@ -240,6 +379,7 @@ def run(ctx: Ctx):
         "__deepcopy__ is not equal to the original in every operation: UsageError and nothing recorded. non-trivial = >= 1 mutation and >= 2 objects")
     proof_step(ctx)
     corr_heap(ctx)
+    corr_recorder(ctx)
     m = 240 if not ctx.thorough else 2400
     scheds = [gen_sched(ctx.rng, i) for i in range(m)]
     outs = pmap(run_sched, scheds, chunksize=8)
@@ -261,4 +401,16 @@ def replay(ctx: Ctx, data):
         o = run_sched(s)
         print(o.get("after"), o.get("log"))
         return judge_sched(s, o) is None
+    if c.get("kind") == "heap":
+        o = run_heap_case(c["case"])
+        print(o)
+        return o["copy"] == o["at_comparison"]
+    if c.get("kind") == "trace":
+        o = run_trace(c["case"])
+        print(o)
+        return o["recs"] == o["at_comparison"]
+    if c.get("kind") == "badcopy":
+        ctx2 = Ctx("C17", "quick", 0)
+        bad_copy(ctx2, only=(c["expr"], tuple(c["flags"])))
+        return not ctx2.violations
     return True
